@@ -71,9 +71,10 @@ class TextEngine:
     # ------------------------------------------------------------------ cfg
     @classmethod
     def gen_cfg(cls, rng, prop, tier):
-        cfg = {"max_steps": rng.choice([3, 4, 6, 8, 10, 14], "max_steps")}
-        cfg["ws_density"] = rng.choice([0.2, 0.4, 0.6], "ws_density")
-        cfg["max_len"] = rng.choice([4, 8, 12, 24], "max_len")
+        deep = tier == "thorough"
+        cfg = {"max_steps": rng.choice([3, 4, 6, 8, 10, 14] + ([20, 30] if deep else []), "max_steps")}
+        cfg["ws_density"] = rng.choice([0.2, 0.4, 0.6] + ([0.8] if deep else []), "ws_density")
+        cfg["max_len"] = rng.choice([4, 8, 12, 24] + ([40] if deep else []), "max_len")
         cfg["p_restart"] = rng.choice([0.0, 0.1, 0.25], "p_restart")
         if prop == "C20":
             cfg["max_steps"] = rng.choice([4, 6, 8, 12, 16, 20], "max_steps20")
